@@ -5,7 +5,7 @@ ID = 'C06'
 FLAVORS = ['default']
 RULE = ('scenarios of 1..3 messages (one per input call; in a quarter of them the last one arrives without terminator and is executed by a zero-length call) of 1..6 units over a table of queries and commands whose scripts emit 0..4 result items of every result type '
         '(integers in all bases, booleans, text, characters, blocks, streamed blocks completed in 1..3 data calls), push errors, and succeed or fail; '
-        'non-trivial: at least one unit responded and at least two units ran; distinct = distinct scenario lines.')
+        'plus single units of up to 70000 items (quick: 33000) followed by a second query, judged against the framed text; non-trivial: at least one unit responded and at least two units ran; distinct = distinct scenario lines.')
 MODELLED = 'writeDelimiter/writeNewLine/processCommand/SCPI_Parse and every SCPI_Result* used here are modelled in ParserModel (item/delimiter/result_*); float results and arrays are in C16/C17'
 ASSUMPTIONS = ['a unit "responds" iff its handler emitted at least one complete result item (DESIGN.md section 9)',
                'scripts of this stream complete every streamed block they start (unfinished blocks are exercised by C09/C17)']
@@ -145,3 +145,28 @@ def streams(tier, rng):
     def nontrivial(c, o):
         return c if (o.count(' H') >= 2 and ' W' in o) else None
     yield {'name': 'framing', 'coqcheck': True, 'cases': cases, 'project': project, 'oracle': oracle_factory(expects), 'nontrivial': nontrivial}
+
+    # one unit with tens of thousands of result items (a waveform answered item by item): every item but the first is preceded
+    # by a comma, the next unit by a semicolon, and the message ends in one terminator -- also beyond 32767 items
+    mcases, minfo = [], {}
+    for cnt in ([32767, 32768, 33000] if tier == 'quick' else [255, 256, 32766, 32767, 32768, 32769, 33000, 40000, 65535, 65536, 65537, 70000]):
+        for v in (7, -1):
+            c = gen.scenario(64, 4, [(1, b'W?', 'RREP:%d:%d' % (cnt, v)), (2, b'B?', 'RI32:5')], [('I', b'W?;B?\n')])
+            mcases.append(c)
+            minfo[c] = (cnt, v)
+
+    def moracle(case, out):
+        if out.startswith('X') or ' X' in out or case not in minfo:
+            return []
+        cnt, v = minfo[case]
+        evs = vf.events(out)
+        got = vf.outbytes(evs[:evs.index('|')] if '|' in evs else evs)
+        want = b','.join([str(v).encode()] * cnt) + b';5\r\n'
+        if got != want:
+            k = 0
+            while k < min(len(got), len(want)) and got[k] == want[k]:
+                k += 1
+            return [('many-items', 'a unit with %d items of value %d followed by a second query: the response (%d bytes) differs from the framed one (%d bytes) at byte %d: ...%r, expected ...%r'
+                     % (cnt, v, len(got), len(want), k, got[max(0, k - 6):k + 6], want[max(0, k - 6):k + 6]))]
+        return []
+    yield {'name': 'many-items', 'cases': mcases, 'model': False, 'oracle': moracle, 'nontrivial': lambda c, o: c}
